@@ -39,7 +39,7 @@ ASSUME = [
     "under the torch backend the run-time meaning of the emitted text is validated differentially, not proved (T5.src and T8.accept hold at the string/table level)",
 ]
 
-HOLES = {"binop": ["l", "py_op", "r"], "cmp": ["l", "py_cmp", "r"], "negate": ["child"],
+HOLES = {"call": ["call", "l", "r"], "binop": ["l", "py_op", "r"], "cmp": ["l", "py_cmp", "r"], "negate": ["child"],
          "reduce": ["method", "arg_src"], "scan": ["method", "arg_src"]}
 
 
@@ -103,10 +103,101 @@ def backend_tables(relpath, cls):
     if not (len(var) == 1 and isinstance(var[0], ast.Return) and ast.unparse(var[0].value) == "ir[1]"):
         raise ShapeError("var branch is not `return ir[1]`")
     out = {}
-    for k in ("binop", "cmp", "reduce", "scan"):
+    for k in ("cmp", "reduce", "scan"):
         out[k] = _table_and_template(br[k], k)
     out["negate"] = ([], _template(br["negate"], "negate"))
+    out["binop"], out["call"] = _binop_tables(br["binop"])
+    out["helpers"] = _helpers_bound(relpath, cls, [v for _, v in out["call"][0]])
     return out
+
+
+def _dict_get_assign(branch, name):
+    """`name = {...}.get(op)` directly in the branch body -> [(k, v)] or None"""
+    for st in branch.body:
+        if isinstance(st, ast.Assign) and len(st.targets) == 1 and isinstance(st.targets[0], ast.Name) and st.targets[0].id == name:
+            v = st.value
+            if isinstance(v, ast.Call) and isinstance(v.func, ast.Attribute) and v.func.attr == "get" and isinstance(v.func.value, ast.Dict) \
+                    and len(v.args) == 1 and ast.unparse(v.args[0]) == "op":
+                d = v.func.value
+                return [(astlib.const(k), astlib.const(x)) for k, x in zip(d.keys, d.values)]
+            raise ShapeError("binop: %s is not `{...}.get(op)`" % name)
+    return None
+
+
+def _joined(ret, kind):
+    class _B:  # a pseudo branch for _template
+        body = [ret]
+    return _template(_B, kind)
+
+
+def _binop_tables(branch):
+    """((infix table, infix template), (call table, call template)) of the binop branch: a verb listed in
+    `call = {...}.get(op)` is emitted as `{call}({l},{r})`, the others as `({l}{py_op}{r})`"""
+    dicts = [n for n in ast.walk(branch) if isinstance(n, ast.Dict)]
+    infix = _dict_get_assign(branch, "py_op")
+    if infix is None:
+        raise ShapeError("binop: no py_op table")
+    call = _dict_get_assign(branch, "call")
+    if len(dicts) != (1 if call is None else 2):
+        raise ShapeError("binop: unexpected dict literals")
+    f_call = []
+    if call is not None:
+        ifs = [st for st in branch.body if isinstance(st, ast.If) and ast.unparse(st.test) == "call is not None"]
+        if len(ifs) != 1 or len(ifs[0].body) != 1 or ifs[0].orelse or not isinstance(ifs[0].body[0], ast.Return):
+            raise ShapeError("binop: `if call is not None: return f'...'` expected")
+        f_call = _joined(ifs[0].body[0], "call")
+        # the call test must come before the infix lookup, as the model assumes
+        idx = {id(st): i for i, st in enumerate(branch.body)}
+        py_assign = [st for st in branch.body if isinstance(st, ast.Assign) and ast.unparse(st.targets[0]) == "py_op"][0]
+        if idx[id(ifs[0])] > idx[id(py_assign)]:
+            raise ShapeError("binop: helper call tested after the infix table")
+        if set(k for k, _ in call) & set(k for k, _ in infix):
+            raise ShapeError("binop: a verb is in both tables")
+    f_bin = _template(branch, "binop")
+    return (infix, f_bin), (call or [], f_call)
+
+
+DIV_HELPER = """
+if getattr(b, 'ndim', 0) == 0 and b == 0:
+    raise ZeroDivisionError("a scalar divisor of 0 is :undefined")
+return a / b
+"""
+
+
+def _helpers_bound(relpath, cls, names):
+    """the namespace the generated function is exec'd in binds every helper name of the call table to the function
+    the model gives it: _div -> base.compiled_divide (with the expected body), _pow -> eval_dyad_power(a, b, self)"""
+    m = astlib.module(relpath)
+    f = astlib.find_func(astlib.find_class(m, cls), "compile_expr_ir")
+    ns = [n for n in f.body if isinstance(n, ast.Assign) and ast.unparse(n.targets[0]) == "ns" and isinstance(n.value, ast.Dict)]
+    if len(ns) != 1:
+        return False
+    bound = {astlib.const(k): ast.unparse(v) for k, v in zip(ns[0].value.keys, ns[0].value.values)}
+    for nm in names:
+        if nm == "_div":
+            if bound.get("_div") != "compiled_divide":
+                return False
+            imp = [n for n in m.body if isinstance(n, ast.ImportFrom) and n.module == "base" and n.level == 1
+                   and any(a.name == "compiled_divide" and a.asname is None for a in n.names)]
+            if not imp:
+                return False
+            base = astlib.module("klongpy/backends/base.py")
+            h = astlib.find_func(base, "compiled_divide")
+            if [a.arg for a in h.args.args] != ["a", "b"] or h.decorator_list:
+                return False
+            want = ast.parse(DIV_HELPER.replace("\nreturn", "\n    return").replace("\nif", "\n    if").replace("\n    raise", "\n        raise").join(["def f(a, b):", ""])).body[0].body
+            if [ast.dump(x) for x in astlib.body_no_doc(h)] != [ast.dump(x) for x in want]:
+                return False
+        elif nm == "_pow":
+            if bound.get("_pow") != "lambda a, b: eval_dyad_power(a, b, self)":
+                return False
+            imp = [n for n in ast.walk(f) if isinstance(n, ast.ImportFrom) and n.module == "dyads" and n.level == 2
+                   and any(a.name == "eval_dyad_power" and a.asname is None for a in n.names)]
+            if not imp:
+                return False
+        else:
+            return False
+    return True
 
 
 GUARD_TEST = "not (tv is int or tv is float or (isinstance(v, ndarray) and v.dtype != object and self._backend.array_size(v) > 0))"
@@ -231,15 +322,18 @@ def _coq_tpl(parts):
 def _coq_tables(name, sets, bt):
     if bt is None:
         body = ("arith_ops := []; cmp_ops := []; redscan_ops := []; t_bin := []; t_cmp := []; t_red := []; t_scan := []; adm_obj := true;\n"
+                "  t_call := []; helpers_bound := false; f_call := [];\n"
                 "  f_bin := []; f_cmp := []; f_neg := []; f_red := []; f_scan := []")
     else:
         ar, cm, rs, adm = sets
-        body = ("arith_ops := %s; cmp_ops := %s; redscan_ops := %s; adm_obj := " + astlib.coq_bool(adm) + ";\n  t_bin := %s;\n  t_cmp := %s;\n  t_red := %s;\n  t_scan := %s;\n"
-                "  f_bin := %s;\n  f_cmp := %s;\n  f_neg := %s;\n  f_red := %s;\n  f_scan := %s") % (
-            astlib.coq_list([astlib.coq_string(x) for x in ar]), astlib.coq_list([astlib.coq_string(x) for x in cm]),
-            astlib.coq_list([astlib.coq_string(x) for x in rs]),
-            _coq_tbl(bt["binop"][0]), _coq_tbl(bt["cmp"][0]), _coq_tbl(bt["reduce"][0]), _coq_tbl(bt["scan"][0]),
-            _coq_tpl(bt["binop"][1]), _coq_tpl(bt["cmp"][1]), _coq_tpl(bt["negate"][1]), _coq_tpl(bt["reduce"][1]), _coq_tpl(bt["scan"][1]))
+        L = lambda xs: astlib.coq_list([astlib.coq_string(x) for x in xs])
+        fields = [("arith_ops", L(ar)), ("cmp_ops", L(cm)), ("redscan_ops", L(rs)), ("adm_obj", astlib.coq_bool(adm)),
+                  ("t_bin", _coq_tbl(bt["binop"][0])), ("t_cmp", _coq_tbl(bt["cmp"][0])), ("t_red", _coq_tbl(bt["reduce"][0])),
+                  ("t_scan", _coq_tbl(bt["scan"][0])), ("t_call", _coq_tbl(bt["call"][0])),
+                  ("helpers_bound", astlib.coq_bool(bt["helpers"])), ("f_call", _coq_tpl(bt["call"][1])),
+                  ("f_bin", _coq_tpl(bt["binop"][1])), ("f_cmp", _coq_tpl(bt["cmp"][1])), ("f_neg", _coq_tpl(bt["negate"][1])),
+                  ("f_red", _coq_tpl(bt["reduce"][1])), ("f_scan", _coq_tpl(bt["scan"][1]))]
+        body = ";\n  ".join("%s := %s" % kv for kv in fields)
     return "Definition %s : tables := {|\n  %s |}." % (name, body)
 
 
@@ -779,6 +873,18 @@ def _out_of_domain(t):
     return False
 
 
+def _beyond_magnitude(t, lim=2 ** 31):
+    import re
+    for z in re.findall(r"\(i (-?\d+)\)", t):
+        if abs(int(z)) >= lim:
+            return True
+    for z in re.findall(r"\(r (\d+)\)", t):
+        z = int(z)
+        if (z >> 52) & 2047 != 2047 and abs(struct.unpack(">d", struct.pack(">Q", z))[0]) >= lim:
+            return True
+    return False
+
+
 def same_res(m, i, flag=False, power=False, big=False):
     if m[0] == "unm":
         return None
@@ -890,10 +996,7 @@ def check_corr(chk, rng, tier):
 
 
 # ---------------------------------------------------------------- (ii) the differential and attribution of differences
-FINDINGS = {
-    "C05-power-kind": {"prog": ["a::4", "a^0.5"], "tree": ("dy", "^", ("sym", "a"), ("lit", "0.5"))},
-    "C05-divide-numpy-zero": {"prog": ["a::[1 2 3]", "(+/a)%0"], "tree": ("dy", "%", ("adv", "+", "/", ("sym", "a")), ("lit", "0"))},
-}
+FINDINGS = {}
 
 
 def _intify(o):
@@ -948,18 +1051,8 @@ def _has_infnan(s):
 
 def classify_pair(op, normal, stub):
     """a differing pair of results of an innermost differing subexpression rooted at op, evaluated alone
-    -> finding id or None.
-    C05-power-kind: the '^': '**' entry — Python/NumPy ** is not the interpreter's Power (kind of whole results,
-      libm pow, broadcasting of nested lists): any difference of a subexpression rooted at ^.
-    C05-divide-numpy-zero: a division by zero is decided by the representation of the scalars involved
-      (Python: ZeroDivisionError / :undefined, NumPy: inf/nan), and the two paths produce different
-      representations: one side :undefined or an error, the other contains inf/nan, subexpression rooted at %."""
-    if op == "scan" and normal != "EXC" and stub == "(l " + normal + ")":
-        return "C05-torch-scan-0d"
-    if op == "^":
-        return "C05-power-kind"
-    if op == "%" and ((stub in ("(u 1)", "EXC") and _has_infnan(normal)) or (normal in ("(u 1)", "EXC") and _has_infnan(stub))):
-        return "C05-divide-numpy-zero"
+    -> finding id or None.  The numpy-side classes (Power as **, Divide as /) were repaired in /repo
+    (c833409, 51bfaf4): no difference is attributed to a known finding here any more."""
     return None
 
 
@@ -1008,10 +1101,7 @@ def attribute_all(items, backend):
                 continue
             if any(u is not t and u in differing for u in subtrees(t)):
                 continue
-            op = t[1] if t[0] == "dy" else ("scan" if t[0] == "adv" and t[2] == "\\" and backend == "torch" else None)
-            # a variable-free subexpression is compiled only as part of its parent: a ^ inside it belongs to t
-            if any(u is not t and u[0] == "dy" and u[1] == "^" and not has_var(u) for u in subtrees(t)):
-                op = "^"
+            op = t[1] if t[0] == "dy" else None
             fid = classify_pair(op, a, b)
             if fid is None and backend == "torch" and a != "EXC" and b != "EXC":
                 try:
@@ -1019,14 +1109,6 @@ def attribute_all(items, backend):
                         fid = "C05-torch-single-precision"
                 except Exception:
                     pass
-            if fid is None and backend == "torch" and (a == "EXC") != (b == "EXC") and t[0] == "dy" \
-                    and any(u is not t and u[0] == "dy" and u[1] == "=" for u in subtrees(t)):
-                fid = "C05-torch-equal-operand"
-            if fid is None:
-                # a variable-free division that is :undefined on its own, compiled as part of t
-                und = {text_of(u2) for u2, a2, b2 in subs if b2 == "(u 1)"}
-                if any(u is not t and u[0] == "dy" and u[1] == "%" and not has_var(u) and text_of(u) in und for u in subtrees(t)):
-                    fid = "C05-divide-numpy-zero"
             if fid is None:
                 why = "subexpression %s: compiled %s, interpreter %s" % (text_of(t), a, b)
                 break
@@ -1057,6 +1139,11 @@ def check_diff(chk, rng, tier, backend, scale=1):
                 seen.add(key)
                 chk.count("distinct_nontrivial")
         if a == b:
+            continue
+        if any(_beyond_magnitude(x) for x in a + b):
+            # magnitudes at or beyond 2^31: int64 wrap-around / float overflow to inf converted to integers /
+            # float32 spacing > 1 are outside the stated domain (DESIGN section 2: operands below 2^31)
+            chk.count("diff_outside_magnitude_" + backend)
             continue
         chk.count("diff_differing_" + backend)
         steps = [i for i, (x, y) in enumerate(zip(a, b)) if x != y]
